@@ -26,7 +26,7 @@ def write(verif, props):
             "thorough_cmd": "./check %s --tier thorough" % pid,
             "evidence_file": "/verif/evidence/%s.json" % pid,
             "replay_cmd_template": "./check %s --replay {path}" % pid,
-            "engine": "mon",
+            "engine": "websim" if pid in ("C16", "C17") else "mon",
             "level_claimed": {
                 "category": "exploration",
                 "text": sp["level_text"],
@@ -48,9 +48,24 @@ def write(verif, props):
         },
         "engines": [
             {"name": "mon", "path": "/verif/harness/mon",
+             "serves_properties": [c["property_id"] for c in checks if c["property_id"] not in ("C16", "C17")],
+             "kind_free_text": "Rust runtime monitors linked against /repo/lib (working tree) with observation hooks "
+                               "(also built under 12 feature sets, Miri, ASan, TSan); the CLI monitors run the adf-bdd "
+                               "binary built from /repo as a process; reference models in /verif/harness/oracle"},
+            {"name": "websim", "path": "/verif/harness/websim",
+             "serves_properties": ["C16", "C17"],
+             "kind_free_text": "HTTP history monitors: the adf-bdd-server binary built from /repo (hooks on) runs against an "
+                               "in-process MongoDB wire-protocol stub inside a private network namespace; per-user "
+                               "sequential reference model, database audits at barriers"},
+            {"name": "oracle", "path": "/verif/harness/oracle",
              "serves_properties": [c["property_id"] for c in checks],
-             "kind_free_text": "Rust runtime monitors linked against /repo/lib (working tree) with observation hooks; "
-                               "reference models in /verif/harness/oracle"},
+             "kind_free_text": "reference models independent of adf_bdd: truth tables, three-valued operator by enumeration, "
+                               "brute-force complete/two-valued/stable models, support-bounded operator, grammar generator "
+                               "and recogniser"},
+            {"name": "driver", "path": "/verif/check",
+             "serves_properties": [c["property_id"] for c in checks],
+             "kind_free_text": "python3 driver: builds from /repo's working tree, shards, watchdogs, merges reports, known "
+                               "findings, evidence, three-valued verdict, replay"},
         ],
         "checks": checks,
         "notes": "Verdicts are three-valued: exit 0 held on what was observed, 1 violation, 2 inconclusive. "
